@@ -113,6 +113,12 @@ def main():
     ctx.is_worker = bool(a.worker)      # fixed-seed statistical checks are not repeated by the thorough tier's seed workers
     ctx.budget = 1.0 if tier == 'quick' else float(os.environ.get('VERIF_THOROUGH_FACTOR', '12'))
     ctx.translator = tstatus
+    # source watch: definitions whose syntax tree is not the one the hand-written control flow of the model was validated against -> explore more (no alarm by itself)
+    from vlib import srcwatch
+    src_changed = [] if a.worker else (srcwatch.changed(REPO) or [])
+    if src_changed and not a.replay:
+        print('[%s] source watch: %d definition(s) differ from the validated source (%s%s): larger budget and a second pass' % (pid, len(src_changed), ', '.join(src_changed[:4]), ' ...' if len(src_changed) > 4 else ''))
+        ctx.budget = max(ctx.budget, float(os.environ.get('VERIF_CHANGED_FACTOR', '3')))
 
     # ---- worker mode (thorough tier fans out over seeds; no build steps, no evidence)
     if a.worker:
@@ -147,6 +153,13 @@ def main():
         harness_error = traceback.format_exc()
         print(harness_error)
 
+    if src_changed and harness_error is None and not res.failures and tier == 'quick':
+        ctx.rng = random.Random(seed * 104729 + 31 + int(pid[1:]))
+        try:
+            mod.run(ctx)
+        except Exception as e:
+            harness_error = traceback.format_exc()
+            print(harness_error)
     # ---- thorough: the same domain under further seeds, in parallel processes
     fan = None
     nworkers = int(os.environ.get('VERIF_THOROUGH_WORKERS', '6')) if tier == 'thorough' else 0
@@ -261,6 +274,7 @@ def main():
             'distribution': res.dist, 'notes': core.jsonable(res.notes),
             'translator': {k: v['status'] for k, v in tstatus.items()},
             'translator_frozen': frozen,
+            'source_watch': {'definitions_differing_from_validated_source': src_changed, 'effect': 'larger budget and a second pass' if src_changed else 'none'},
             'model_calls': ctx.model.calls if ctx.model else 0,
             'further_seeds': fan if fan else 'not run in the quick tier',
             'known_findings_seen': sorted(seen),
